@@ -82,6 +82,8 @@ type fanSend struct {
 	invokeStep int
 	returnStep int
 	cancelStep int // step at which cancel() ran (0: not yet)
+	cancel     context.CancelFunc
+	NodeCancels string // label of a node that cancels this Send's context when it is entered ("": none)
 	ctxErrAtReturn error
 	ctx        context.Context
 	task       *simrt.Task
@@ -388,6 +390,14 @@ func runFanout(rc *RunCtx, o fanOpts) {
 		}
 	}
 
+	// C03: thresholds that the Sends may or may not meet (what Send returns is C02's business; that it
+	// returns is C03's, whatever the thresholds)
+	if o.small && !o.thresholds && tp.Choose(2, "c03-thresholds") == 0 {
+		for _, t := range types {
+			broker.SetSuccessThreshold(el.EventType(t), tp.Choose(3, "thr"))
+			broker.SetSuccessThresholdSinks(el.EventType(t), tp.Choose(3, "thrsinks"))
+		}
+	}
 	// stalled nodes (C03)
 	if o.stall {
 		for _, p := range all {
@@ -429,6 +439,12 @@ func runFanout(rc *RunCtx, o fanOpts) {
 			if o.cancel && s.CancelMode != "never" && tp.Choose(3, "with-cause") == 0 {
 				s.Cause = true
 			}
+			if o.cancel && s.CancelMode == "never" && tp.Choose(4, "node-cancels") == 0 {
+				// a node of the traversal gives up on behalf of the caller: it cancels the Send's context
+				// (e.g. a sink that triggers a shutdown) and then behaves as it would have anyway
+				s.CancelMode = "node"
+				s.NodeCancels = all[tp.Choose(len(all), "which-node")].id
+			}
 			sendTypes[s.ID] = s.Type
 			mine = append(mine, s)
 			sends = append(sends, s)
@@ -455,6 +471,7 @@ func runFanout(rc *RunCtx, o fanOpts) {
 						s.ctx, cancel = context.WithCancel(context.Background())
 					}
 				}
+				s.cancel = cancel
 				switch s.CancelMode {
 				case "pre":
 					cancel()
@@ -482,6 +499,16 @@ func runFanout(rc *RunCtx, o fanOpts) {
 		})
 	}
 	_ = anyDeadline
+	h.onEntry = func(n *recNode, lin string) {
+		for _, s := range sends {
+			if s.CancelMode == "node" && s.cancel != nil && s.cancelStep == 0 && strings.HasPrefix(n.Label, s.NodeCancels) &&
+				(lin == fmt.Sprintf("S%d", s.ID) || strings.HasPrefix(lin, fmt.Sprintf("S%d>", s.ID))) {
+				s.cancelStep = sim.Step
+				s.cancel()
+				simrt.Probe("node.cancelled-its-send")
+			}
+		}
+	}
 
 	// C03: some nodes call back into the Broker (a nested Send to another type)
 	// while a concurrent task re-sets thresholds to the values they already have:
